@@ -119,10 +119,13 @@ func datastoreKey(directory string, dbAddress address.Address) string {
 
 func (l *levelDownCache) Destroy(directory string, dbAddress address.Address) error {
 	keyPath := datastoreKey(directory, dbAddress)
-	l.muCaches.Lock()
-	defer l.muCaches.Unlock()
 
-	if wc, ok := l.caches[keyPath]; ok {
+	// Close takes the lock itself: it is called without it
+	l.muCaches.Lock()
+	wc, ok := l.caches[keyPath]
+	l.muCaches.Unlock()
+
+	if ok {
 		wc.Close()
 	}
 
